@@ -297,6 +297,7 @@ def e2_op_strategies(nparts, ngroups, profile):
         'cellev': st.tuples(st.just('cellev'), st.integers(0, 3),
                             st.booleans()).map(list),
         'running': st.tuples(st.just('running'), idx).map(list),
+        'renew': st.tuples(st.just('renew'), idx).map(list),
         'adv': st.tuples(st.just('adv'), st.sampled_from(
             [1, 10, 29, 31, 301, 599, 601, 3599, 3601, DAY, 3 * DAY, 8 * DAY,
              22 * DAY])).map(list),
